@@ -302,6 +302,9 @@ def step (w : World) (ws : List String) : World × List String :=
   | ["SP", c, d] => withCtx c fun ci x =>
       (setCtx w ci (some { x with dirs := tildeExpand (mkPEnv w []) (bytesOfHex d) :: x.dirs }), ["R 0"])
   | ["PB", c, t] => withCtx c fun ci x => emitParse w ci x (parseBuf orc (mkPEnv w x.dirs) x.cfg (bytesOfHex t) w.k)
+  -- model-only parse: what a parse the harness' own callback starts (nested in a running parse, which the model
+  -- does not run there) must leave in its context - the same as the parse on its own
+  | ["MPB", c, t] => withCtx c fun ci x => ((emitParse w ci x (parseBuf orc (mkPEnv w x.dirs) x.cfg (bytesOfHex t) w.k)).1, [])
   | ["PS", c, t] => withCtx c fun ci x => emitParse w ci x (parseStream orc (mkPEnv w x.dirs) x.cfg (bytesOfHex t) w.k)
   | ["PF", c, p] => withCtx c fun ci x => emitParse w ci x (parseFile orc (mkPEnv w x.dirs) x.cfg (bytesOfHex p) w.k)
   | "SL" :: c :: p :: vs => withCtx c fun ci x =>
